@@ -523,8 +523,13 @@ impl<'a> Gen<'a> {
             }).collect();
             if !close.is_empty() {
                 let k = if self.r.chance(1, 4) { self.r.usize(d + 1) } else { d };
+                // every closed level may itself be a key: the scanner then inserts KEY tokens
+                // into the middle of its queue, level after level
+                let (pre, post) = *self.r.pick(&[("", ""), ("", ""), (":", ""), ("", ":"), ("", ": v,"), (",", "")]);
                 for _ in 0..k {
+                    s.push_str(pre);
                     s.push_str(&close);
+                    s.push_str(post);
                 }
             }
         }
